@@ -47,6 +47,7 @@ CONSTANTS
     MaxRec,         \* free source: number of records
     MaxName,        \* free source: names 1..MaxName
     TopMax,         \* at most this many top-level items
+    KeepLog,        \* FALSE: no history (liveness runs cannot hide it with a VIEW)
     \* ---- rules (TRUE = what a correct implementation does) ----
     WaitAfterData,  \* the source awaits the sink's response after data + status
     WarnIsFatal,    \* (wrong when TRUE) the source treats a warning as fatal
@@ -631,7 +632,9 @@ Apply(d, who) ==
     /\ refused' = refused \cup d.ref
     /\ fs' = d.fs
     /\ nid' = IF d.useid THEN nid + 1 ELSE nid
-    /\ log' = log \o [i \in 1 .. Len(d.out) |-> <<who, d.out[i].to, d.out[i].tok>>]
+    /\ log' = IF KeepLog
+              THEN log \o [i \in 1 .. Len(d.out) |-> <<who, d.out[i].to, d.out[i].tok>>]
+              ELSE log
     /\ UNCHANGED <<cfg, cut>>
 
 \* a free peer that stops closes its channel in the same step, and says so in the
@@ -660,7 +663,7 @@ Cut == /\ AllowCut # "no" /\ ~cut /\ ~AllDone
        /\ cut' = TRUE
        /\ ch' = [x \in Chans |-> <<>>]
        /\ closed' = [x \in Chans |-> TRUE]
-       /\ log' = Append(log, <<"env", "cut", Tok("cut", 0, 0, 0)>>)
+       /\ log' = IF KeepLog THEN Append(log, <<"env", "cut", Tok("cut", 0, 0, 0)>>) ELSE log
        /\ UNCHANGED <<cfg, quit, desync, refused, s, k, c, fs, nid>>
 
 Finished == AllDone /\ UNCHANGED vars
